@@ -39,6 +39,8 @@ LEVEL_NOTE = ("Trusted: TLC 1.8 and the hand-written correspondence between mode
               "interpreter); the snapshot walker for deduplication only (the stateless pass does not depend on it).")
 EXHAUSTIVE = True
 
+CORE_OPS = ["plain", "mn_full", "op_full", "range_a", "range_b", "norange", "bin_text", "bin_plt", "bin_all", "cap2", "cap1", "lib_mov", "lib_push",
+            "lib_undef", "param_twice", "bad_config", "bad_range", "bad_not2"]
 PY = "/venv/bin/python"
 HIST = os.path.join(VERIF, "mc", "history.py")
 
@@ -85,7 +87,9 @@ def shards(tier):
         shutil.rmtree(root, ignore_errors=True)
     baseline = {n: v["outcome"] for n, v in base.items()}
     sh = [{"kind": "bfs", "baseline": baseline}]
-    sh += [{"kind": "tree", "first": n, "baseline": baseline} for n in names]
+    sh += [{"kind": "tree", "first": n, "baseline": baseline, "depth": 3, "ops": None} for n in names]
+    if tier == "thorough":     # depth 4 over the 18 operations that set / read global state (36^4 would be 1.7 million histories)
+        sh += [{"kind": "tree", "first": n, "baseline": baseline, "depth": 4, "ops": CORE_OPS} for n in CORE_OPS]
     sh += [{"kind": "accum", "op": n, "baseline": baseline} for n in names]
     # TLC: model-check tla/JasmConfig.tla, then replay EVERY distinct (model state, step) transition on the real code
     from mc import tlc_conf
@@ -97,10 +101,11 @@ def shards(tier):
 
 def run_tree(shard, tier, h, res, known):
     _, history = _ops()
-    wd = h.path("tree_" + shard["first"])
+    wd = h.path(f"tree{shard.get('depth', 3)}_" + shard["first"])
     history.prepare_workdir(wd)
-    depth = bounds(tier)["depth_stateless"]
-    r = subprocess.run([PY, HIST, "tree", wd, shard["first"], str(depth)], capture_output=True, text=True, env=_env())
+    depth = shard.get("depth", 3)
+    cmd = [PY, HIST, "tree", wd, shard["first"], str(depth)] + ([",".join(shard["ops"])] if shard.get("ops") else [])
+    r = subprocess.run(cmd, capture_output=True, text=True, env=_env())
     if r.returncode != 0:
         raise HarnessError("tree explorer failed: " + r.stderr[-400:])
     base = shard["baseline"]
